@@ -1232,7 +1232,10 @@ coap_client_delay_first(coap_session_t *session) {
     coap_session_state_t current_state = session->state;
 
     if (session->delay_recursive) {
-      assert(0);
+      /*
+       * Another thread (or a callback run from the coap_io_process_lkd()
+       * below) is already waiting for the first response of this session.
+       */
       return 1;
     } else {
       session->delay_recursive = 1;
